@@ -4,5 +4,5 @@ M=$1; C=$2; L=$3; W=${4:-8}; T=${5:-600}; shift 5
 cd /verif/spec/mc
 MD=/verif/.work/tlcmeta/mc_$$_$RANDOM
 mkdir -p $MD
-JAVA_TOOL_OPTIONS="-Xss1g -Xmx10g -DTLA-Library=/verif/spec" nohup timeout $T tlc -workers $W -metadir $MD -cleanup -noGenerateSpecTE -config $C $M.tla "$@" > $L 2>&1 &
+JAVA_TOOL_OPTIONS="-Xss1g -Xmx10g -DTLA-Library=/verif/spec" nohup timeout $T /verif/bin/tlcw -workers $W -metadir $MD -cleanup -noGenerateSpecTE -config $C $M.tla "$@" > $L 2>&1 &
 echo started $!
